@@ -124,7 +124,14 @@ pub fn check_case(c: &DiffCase, l: &mut Local) -> Result<(), String> {
     let cur_tick = (start_lo + c.current_slot as i32 * tsi + c.current_skew as i32).clamp(MIN_TICK, MAX_TICK);
     let mut wp = Whirlpool::default();
     wp.tick_spacing = ts;
-    wp.fee_tier_index_seed = ts.to_le_bytes();
+    // regular pools: the fee-tier index equals the tick spacing; adaptive-fee pools (one case in three): it never does
+    wp.fee_tier_index_seed = if c.pool_liquidity % 3 == 0 { (ts ^ 0x0401).to_le_bytes() } else { ts.to_le_bytes() };
+    wp.whirlpools_config = Pubkey::new_from_array([0x11; 32]);
+    wp.whirlpool_bump = [0xfd];
+    wp.token_mint_a = Pubkey::new_from_array([0x22; 32]);
+    wp.token_vault_a = Pubkey::new_from_array([0x33; 32]);
+    wp.token_mint_b = Pubkey::new_from_array([0x44; 32]);
+    wp.token_vault_b = Pubkey::new_from_array([0x55; 32]);
     wp.liquidity = c.pool_liquidity;
     wp.tick_current_index = cur_tick;
     wp.sqrt_price = whirlpool::math::sqrt_price_from_tick_index(cur_tick);
@@ -176,7 +183,11 @@ pub fn check_case(c: &DiffCase, l: &mut Local) -> Result<(), String> {
             && v.fee_growth_global_b() == a.fee_growth_global_b
             && v.reward_last_updated_timestamp() == a.reward_last_updated_timestamp
             && v.token_mint_a() == &a.token_mint_a.to_bytes()
+            && v.token_mint_b() == &a.token_mint_b.to_bytes()
+            && v.token_vault_a() == &a.token_vault_a.to_bytes()
             && v.token_vault_b() == &a.token_vault_b.to_bytes()
+            // the PDA signer seeds the vault-to-owner transfers are signed with
+            && v.seeds().iter().zip(a.seeds().iter()).all(|(x, y)| { let xs: &[u8] = x; xs == *y })
             && (0..3).all(|i| {
                 let r = &v.reward_infos()[i];
                 r.mint() == &a.reward_infos[i].mint.to_bytes()
